@@ -1,5 +1,6 @@
 import PgFdr.Json
 import PgFdr.Model.C17
+import PgFdr.Model.C17Lists
 namespace PgFdr.Driver
 open Lean PgFdr
 
@@ -10,12 +11,71 @@ def jpepval (j : Json) : R C17.PepVal :=
   | .str "-inf" => .ok .inf
   | _ => do pure (.fin (← jrat j))
 
+def ofPepVal : C17.PepVal → Json
+  | .nan => .str "nan"
+  | .inf => .str "inf"
+  | .fin q => ofRat q
+
 /-- `{"op":"cutoff","peps":[ "nan" | "inf" | [num,den] … ],"level":[num,den]}` → `{"cutoff":[num,den]}` -/
 def handleCutoff (j : Json) : R Json := do
   let peps ← jlist jpepval (← jget j "peps")
   let level ← jrat (← jget j "level")
   pure (obj [("cutoff", ofRat (C17.cutoff peps level))])
 
+/-- `[peptide, "nan" | "inf" | [num,den], [proteins…]]` -/
+def jrow (j : Json) : R C17.Row := do
+  match j with
+  | .arr #[p, s, ps] => pure { peptide := ← jstr p, score := ← jpepval s, proteins := ← jstrs ps }
+  | _ => .error s!"expected [peptide, score, proteins], got {j.compress}"
+
+/-- razor data as `set_peptide_counts_per_protein` derives them from the peptide list (all scores finite), with
+    the md5 keys supplied by the harness: `{"keys":[[protein, md5hex],…]}` or `null` -/
+def jrazor17 (pil : List C17.Row) (j : Option Json) : R (Option C05.Razor) :=
+  match j with
+  | none => pure none
+  | some r => do
+    let infos ← pil.mapM (fun x =>
+      match x.score with
+      | .fin q => pure ({ peptide := x.peptide, pep := q, proteins := x.proteins } : PepInfo)
+      | _ => throw "razor data with a non-finite score are not modelled")
+    let kvs ← jlist (fun kv => do
+      match kv with
+      | .arr #[k, v] => pure ((← jstr k), (← jstr v))
+      | _ => throw s!"expected [protein, key], got {kv.compress}") (← jget r "keys")
+    pure (some (C05.razorOf infos (fun p => (kvs.lookup p).getD "")))
+
+/-- `{"op":"c17_collect","groups":…,"pil":[row…],"razor":null|{"keys":…},"suppress":bool,"useShared":bool,
+      "level":[n,d]}` → `{"peps":[…],"cutoff":[n,d],"copies":[nat per peptide]}` or `{"err":…}` -/
+def handleCollect17 (j : Json) : R Json := do
+  let groups ← jgroups (← jget j "groups")
+  let pil ← jlist jrow (← jget j "pil")
+  let rz ← jrazor17 pil (jgetOpt j "razor")
+  let suppress ← jbool (← jget j "suppress")
+  let useShared ← jbool (← jget j "useShared")
+  let level ← jrat (← jget j "level")
+  match C17.collectPeps groups pil rz suppress useShared with
+  | .error e => pure (ofErr e.toString)
+  | .ok peps =>
+    let copies := pil.map (fun x =>
+      match C05.filterProteins rz x.proteins with
+      | .ok prots => C17.copies groups useShared prots
+      | .error _ => 0)
+    pure (obj [("peps", ofList ofPepVal peps), ("cutoff", ofRat (C17.cutoff peps level)),
+               ("copies", ofList ofNat copies)])
+
+/-- `{"op":"c17_quant","groups":…,"useShared":bool,"files":[[row…],…],"level":[n,d]}` →
+    `{"peps":[… post_err_probs_combined …],"writer_peps":[…],"cutoff":[n,d],"file_cutoffs":[[n,d],…]}` -/
+def handleQuant17 (j : Json) : R Json := do
+  let groups ← jgroups (← jget j "groups")
+  let useShared ← jbool (← jget j "useShared")
+  let files ← jlist (jlist jrow) (← jget j "files")
+  let level ← jrat (← jget j "level")
+  let peps := C17.quantPeps groups useShared files
+  pure (obj [("peps", ofList ofPepVal peps), ("writer_peps", ofList ofPepVal (C17.writerPeps peps)),
+             ("cutoff", ofRat (C17.quantCutoff groups useShared files level)),
+             ("file_cutoffs", ofList (fun f => ofRat (C17.quantCutoff groups useShared [f] level)) files)])
+
 /-- protocol handlers of property C17: (op name, handler) -/
-def handlersC17 : List (String × (Json → R Json)) := [("cutoff", handleCutoff)]
+def handlersC17 : List (String × (Json → R Json)) :=
+  [("cutoff", handleCutoff), ("c17_collect", handleCollect17), ("c17_quant", handleQuant17)]
 end PgFdr.Driver
